@@ -715,7 +715,9 @@ def c09(ctx: Any, total: int) -> None:
         rng = ctx.rng("cli", index)
         # rows are written in time order here: sheet row numbers then agree between the full and the truncated file for
         # the IN table only, but reports never show row numbers
-        hists = cli_histories(rng, rng.choice((1, 2)), cli_profile(max_events=14, min_events=6, gap_style=rng.choice(("medium", "long")), allow_in_crypto_fee=False))
+        # several assets whose sheets share row numbers (state kept between assets of one run - e.g. in the method objects rp2_main
+        # shares - lets transactions added to one asset after T change another asset's earlier pairings)
+        hists = cli_histories(rng, rng.choice((1, 2, 2, 3, 3)), cli_profile(max_events=14, min_events=6, gap_style=rng.choice(("medium", "long")), allow_in_crypto_fee=False, p_in=0.55, p_out=0.35, p_intra=0.1))
         days = [d for d in candidate_days(rng, next(iter(hists.values())), 8) if all(clean_cut(h, d) for h in hists.values()) and all(any(r["t"] == "IN" and parse_ts(r["ts"]).date() <= d for r in h["rows"]) for h in hists.values())]
         if not days:
             continue
@@ -788,6 +790,16 @@ def _c10_one(ctx: Any, case: Dict[str, Any], name: str) -> None:
             expected_lines = [l for l in strip(rt.yearly_lines(asset)) if int(l["year"]) >= lo.year]
             if strip(rf.yearly_lines(asset)) != expected_lines:
                 ctx.violation("filter.cli-yearly-lines", {"asset": asset, "shown": len(rf.yearly_lines(asset)), "expected": len(expected_lines)}, case)
+            # the Summary sheet carries the same lines (whole years from the from-date's year on), whether or not a year has a
+            # visible detail row to link to
+            def summary_of(report: FullReport) -> List[Tuple[Any, ...]]:
+                return [(int(num(l["year"]) or 0), str(l["kind"]), str(l["type"]), *(num(l[k]) for k in ("amount", "proceeds", "cost", "gain"))) for l in report.summary_lines() if str(l["asset"]) == asset]
+
+            expected_summary = [l for l in summary_of(rt) if l[0] >= lo.year]
+            shown_summary = summary_of(rf)
+            if len(shown_summary) != len(expected_summary) or any(a[:3] != b[:3] or any(not _same_figure(x, y) for x, y in zip(a[3:], b[3:])) for a, b in zip(shown_summary, expected_summary)):
+                ctx.violation("filter.cli-summary-sheet-lines", {"asset": asset, "shown": [list(map(str, l[:3])) for l in shown_summary][:6], "expected": [list(map(str, l[:3])) for l in expected_summary][:6]}, case)
+            ctx.count("cli_summary_lines_compared", len(shown_summary))
             # transactions shown
             for table, rows_f, rows_b in (("IN", rf.in_rows(asset), rb.in_rows(asset)), ("OUT", rf.out_rows(asset), rb.out_rows(asset)), ("INTRA", rf.intra_rows(asset), rb.intra_rows(asset))):
                 exp = [r["uid"] for r in rows_b if parse_report_ts(r["ts"]) is not None and lo <= parse_report_ts(r["ts"]).date() <= hi]
@@ -820,6 +832,16 @@ def c10(ctx: Any, total: int) -> None:
         to_d = rng.choice(clean)
         from_candidates = [d for d in days if d <= to_d]
         from_d = rng.choice(from_candidates) if from_candidates else to_d
+        if rng.random() < 0.35:
+            # a from-date right after an asset's last transaction of some year: that year keeps its summary lines (whole years
+            # from the from-date's year on) although none of its rows is shown
+            last_of_year: Dict[int, date] = {}
+            for r in first["rows"]:
+                d = parse_ts(r["ts"]).date()
+                last_of_year[d.year] = max(d, last_of_year.get(d.year, d))
+            options = [d + timedelta(days=1) for d in last_of_year.values() if (d + timedelta(days=1)).year == d.year and d + timedelta(days=1) <= to_d]
+            if options:
+                from_d = rng.choice(options)
         window = [from_d.isoformat(), to_d.isoformat()] if rng.random() < 0.7 else [from_d.isoformat(), None]
         _c10_one(ctx, _case(hists, "us", ["-m", rng.choice(METHODS)], None, {"window": window}), f"c10-{index}")
 
